@@ -15,24 +15,37 @@ OPS = ["ap", "in", "et", "el", "ib", "ia", "rw", "wr", "uw", "ex", "cl", "de", "
 class World:
     """A forest of real bs4 objects with labels."""
 
-    def __init__(self, kinds: str):
+    def __init__(self, kinds: str, twin_rng=None, twin_choices=None):
+        """twin_rng: make structurally EQUAL elements (tags sharing a name, strings sharing a text, empty strings);
+        identity is then carried by an id() map only, and smooth() is not generated (merged texts would be ambiguous)"""
         from bs4 import BeautifulSoup
         from bs4.element import NavigableString, Comment, Tag
         self.kinds = kinds
+        self.twin = twin_rng is not None or twin_choices is not None
+        self.twin_choices = list(twin_choices) if twin_choices is not None else ([] if self.twin else None)
+
+        def pick(i, options):
+            if twin_choices is not None:
+                return twin_choices[i]
+            c = twin_rng.choice(options)
+            self.twin_choices.append(c)
+            return c
         self.base = BeautifulSoup("", "html.parser")
         self.objs: dict[str, object] = {}      # label -> object (live, not decomposed)
-        self.lab: dict[int, str] = {}          # id(tag) -> label
+        self.lab: dict[int, str] = {}          # id(element) -> label (all tags; initial strings)
         self.keep: list = []                   # strong refs
         self.next_plain = 1000
         for i, k in enumerate(kinds):
             if k == "t":
-                o = self.base.new_tag(f"t{i}")
+                o = self.base.new_tag(pick(i, ["x", "x", "y"]) if self.twin else f"t{i}")
             elif k == "r":
                 o = BeautifulSoup("", "html.parser")
+                if self.twin:
+                    pick(i, ["-"])
             elif k == "s":
-                o = NavigableString(f"{i}.")
+                o = NavigableString(pick(i, ["a.", "a.", "", "b."]) if self.twin else f"{i}.")
             else:
-                o = Comment(f"{i}.")
+                o = Comment(pick(i, ["c."]) if self.twin else f"{i}.")
             self.register(o, i)
 
     # -- labels -----------------------------------------------------------------------------
@@ -41,6 +54,8 @@ class World:
         self.keep.append(o)
         if isinstance(o, Tag):
             self.lab[id(o)] = f"t{i}"
+        elif i is not None:
+            self.lab[id(o)] = f"s{i}"
         self.objs[self.label(o)] = o
 
     def label(self, o) -> str:
@@ -49,6 +64,8 @@ class World:
             return "-"
         if isinstance(o, Tag):
             return self.lab.get(id(o), "t?")
+        if id(o) in self.lab:
+            return self.lab[id(o)]
         t = str(o)
         return "s" + (t[:-1] if t.endswith(".") else t + "?")
 
@@ -500,7 +517,7 @@ def make_world(rng, parsed: bool):
     kinds = "r" * n_soup + "t" * n_tag + "s" * n_str + "c" * n_pre
     ids = list(range(len(kinds)))
     if not parsed:
-        return World(kinds), kinds, []
+        return World(kinds, twin_rng=rng if rng.random() < 0.3 else None), kinds, []
     # a random tree over a subset of the nodes, written as markup and parsed by html.parser
     tags = [i for i in ids if kinds[i] == "t"]
     leaves = [i for i in ids if kinds[i] in "sc"]
@@ -664,7 +681,7 @@ def gen_op(rng, w: World, stats) -> Optional[str]:
         if k == "de" and attached and rng.random() < 0.4:
             l, o = rng.choice(attached)
             return f"de:{l}"
-        if k == "sm" and tags:
+        if k == "sm" and tags and not getattr(w, "twin", False):
             return f"sm:{rng.choice(tags)[0]}"
         if k == "ss" and tags and rng.random() < 0.6:
             l, o = rng.choice(tags)
